@@ -173,10 +173,64 @@ def m_unpackb(it, data, ext_hook=None, use_list=True, raw=False, unicode_errors=
     return untree(it, data.tree, ext_hook, use_list, unicode_errors if unicode_errors is not None else "strict")
 
 
+class MPUnpacker:
+    """msgpack.Unpacker(file_like=None, ...): a streaming decoder; feed(bytes) appends to its buffer, unpack() decodes and consumes the NEXT value of the
+    buffer (bytes behind that value stay in the buffer: they are NOT an error), OutOfData when the buffer holds no complete value."""
+
+    def __init__(self, it, args, kw):
+        note("msgpack.Unpacker", "streaming decoder: unpack() returns the first complete value of what was fed and keeps the rest buffered (no ExtraData error); an incomplete value raises OutOfData")
+        if args and args[0] is not None:
+            raise Unsupported("msgpack.Unpacker over a file object")
+        self.it, self.kw, self.buf = it, dict(kw), []
+
+    def feed(self, data):
+        self.buf.append(self.it.unbase(data))
+
+    def _options(self):
+        k = self.kw
+        return k.get("ext_hook"), k.get("use_list", True), k.get("unicode_errors", "strict")
+
+    def unpack(self):
+        it = self.it
+        ext_hook, use_list, errors = self._options()
+        it.event("unpackb-options", ("use_list", use_list), ("raw", self.kw.get("raw", False)), ("unicode_errors", errors), *sorted((k_, v_) for k_, v_ in self.kw.items() if k_ not in ("ext_hook", "use_list", "raw", "unicode_errors") and it.concrete(v_)))
+        if not self.buf:
+            raise PyRaise(ValueError("OutOfData: No more data to unpack."))
+        data = self.buf[0]
+        parts = getattr(data, "parts", None)  # BCat: a packed value followed by further bytes
+        if parts is not None:
+            data = parts[0]
+            if not isinstance(data, MPBytes):
+                raise Unsupported("Unpacker over concatenated abstract bytes")
+            self.buf[0:1] = list(parts[1:])
+            return untree(it, data.tree, ext_hook, use_list, errors if errors is not None else "strict")
+        if isinstance(data, MPTrunc):
+            raise PyRaise(ValueError("OutOfData: incomplete input"))
+        if isinstance(data, (bytes, bytearray)):
+            S = spec_codec()
+            try:
+                t, pos = S._dec(bytes(data), 0)
+            except ValueError as e:
+                raise PyRaise(ValueError(str(e)))
+            self.buf[0] = bytes(data)[pos:]
+            return untree(it, t, ext_hook, use_list, errors if errors is not None else "strict")
+        if isinstance(data, MPBytes):
+            self.buf.pop(0)
+            return untree(it, data.tree, ext_hook, use_list, errors if errors is not None else "strict")
+        raise Unsupported("Unpacker fed with bytes that were not produced by the msgpack model")
+
+    def __iter__(self):
+        raise Unsupported("iteration over msgpack.Unpacker")
+
+
 class MsgpackModel:
     """Stands for the `msgpack` module."""
 
     ExtType = ExtType
+
+    @staticmethod
+    def Unpacker(*a, **k):
+        raise RuntimeError("model placeholder")
 
     @staticmethod
     def packb(*a, **k):
@@ -191,4 +245,5 @@ def install(it):
     it.loader.module_models["msgpack"] = MsgpackModel
     it.models[MsgpackModel.packb] = m_packb
     it.models[MsgpackModel.unpackb] = m_unpackb
+    it.models[MsgpackModel.Unpacker] = lambda it_, *a, **k: MPUnpacker(it_, a, k)
     it.models[ExtType] = lambda it_, code, data: ExtType(code, data)
